@@ -390,6 +390,39 @@ def _nested(path, value):
     return d
 
 
+def _toml_also_rejects(path, value, what):
+    """What is rejected when a configuration is built in memory is also rejected when it stands in a TOML file (the default
+    document with this one entry replaced; written with tomli_w - trusted base - and read with config_from_toml)."""
+    import tomllib
+
+    import tomli_w
+
+    from nuspacesim.config import NssConfig, config_from_toml, create_toml
+
+    if not isinstance(value, (str, int, float, bool)):
+        return False
+    tmp = tempfile.mkdtemp(prefix="nssverif_c15r_")
+    try:
+        f0 = os.path.join(tmp, "default.toml")
+        create_toml(f0, NssConfig())
+        with open(f0, "rb") as fh:
+            doc = tomllib.load(fh)
+        d = doc
+        for name in path[:-1]:
+            d = d.setdefault(name, {})
+        d[path[-1]] = value
+        f1 = os.path.join(tmp, "bad.toml")
+        with open(f1, "wb") as fh:
+            tomli_w.dump(doc, fh)
+        try:
+            c = config_from_toml(f1)
+        except Exception:  # noqa: BLE001 - rejection is what the statement asks for
+            return True
+        raise Violation(f"{what}: rejected when the configuration is built in memory, but a TOML file with {'.'.join(path)} = {value!r} loads (stored: {_get(c, path)!r})")
+    finally:
+        shutil.rmtree(tmp, ignore_errors=True)
+
+
 def body_units(case):
     import astropy.units as u
     from astropy.units import Quantity
@@ -431,6 +464,8 @@ def body_units(case):
                 continue
             raise Violation(f"{'.'.join(path)} = {given!r} (incompatible unit) was accepted and stored as {_get(c, path)!r}")
         labels.add("incompatible_rejected")
+        if case["unit"] % 3 == 0 and _toml_also_rejects(path, f"{value!r} {bad_unit}".strip(), "incompatible unit"):
+            labels.add("rejected_in_a_toml_file_too")
         return labels
     units = sorted(TABLE[kind])
     unit = units[case["unit"] % len(units)]
@@ -470,6 +505,32 @@ def body_band(case):
     except Exception:  # noqa: BLE001
         require(not (eff_hi > eff_lo * (1 + 1e-12) + 1e-300), f"a valid band {eff_lo!r}-{eff_hi!r} MHz ({radio!r}) was rejected")
         labels.add("rejected")
+        if supplied == "both" and int(lo * 7) % 3 == 0:
+            tmp_doc_path = ("detector", "radio", "low_frequency")
+            # (both edges in one document: the high edge first, then the low edge through the helper)
+            import tomllib
+
+            import tomli_w
+
+            from nuspacesim.config import config_from_toml, create_toml
+
+            d_ = tempfile.mkdtemp(prefix="nssverif_c15b_")
+            try:
+                f0 = os.path.join(d_, "d.toml")
+                create_toml(f0, NssConfig())
+                with open(f0, "rb") as fh:
+                    doc = tomllib.load(fh)
+                doc["detector"]["radio"].update(radio)
+                with open(f0, "wb") as fh:
+                    tomli_w.dump(doc, fh)
+                try:
+                    c2 = config_from_toml(f0)
+                except Exception:  # noqa: BLE001
+                    labels.add("rejected_in_a_toml_file_too")
+                else:
+                    raise Violation(f"an inverted or empty frequency band {radio!r} is rejected in memory but loads from a TOML file (stored {c2.detector.radio.low_frequency!r} .. {c2.detector.radio.high_frequency!r} MHz)")
+            finally:
+                shutil.rmtree(d_, ignore_errors=True)
     else:
         require(eff_hi > eff_lo or abs(eff_hi - eff_lo) <= 1e-12 * abs(eff_lo), f"an inverted or empty frequency band was accepted: {radio!r} -> low {c.detector.radio.low_frequency!r} MHz, high {c.detector.radio.high_frequency!r} MHz")
         require(c.detector.radio.high_frequency > c.detector.radio.low_frequency, f"stored band is inverted: {c.detector.radio.low_frequency!r} .. {c.detector.radio.high_frequency!r}")
@@ -512,7 +573,33 @@ def body_month(case):
         c = Simulation.PressureMapCloud(month=x)
     except Exception:  # noqa: BLE001
         require(kind != "accept", f"month {x!r} must be accepted as {m}, but was rejected")
-        return {"rejected", kind}
+        out = {"rejected", kind}
+        if kind == "reject" and isinstance(x, (int, str)) and not isinstance(x, bool) and (not isinstance(x, int) or abs(x) < 2**62):
+            # (the default document with a pressure-map cloud model of this month)
+            import tomllib
+
+            import tomli_w
+
+            from nuspacesim.config import NssConfig, config_from_toml, create_toml
+
+            d_ = tempfile.mkdtemp(prefix="nssverif_c15m_")
+            try:
+                f0 = os.path.join(d_, "d.toml")
+                create_toml(f0, NssConfig(simulation={"cloud_model": {"id": "pressure_map", "month": 3}}))
+                with open(f0, "rb") as fh:
+                    doc = tomllib.load(fh)
+                doc["simulation"]["cloud_model"]["month"] = x
+                with open(f0, "wb") as fh:
+                    tomli_w.dump(doc, fh)
+                try:
+                    c2 = config_from_toml(f0)
+                except Exception:  # noqa: BLE001
+                    out.add("rejected_in_a_toml_file_too")
+                else:
+                    raise Violation(f"month {x!r} is rejected in memory but a TOML file with it loads (cloud model stored: {c2.simulation.cloud_model!r})")
+            finally:
+                shutil.rmtree(d_, ignore_errors=True)
+        return out
     require(kind != "reject", f"month {x!r} must be rejected, but was accepted as {c.month!r}")
     if kind == "accept":
         require(c.month == m, f"month {x!r} stored as {c.month!r}, expected {m}")
